@@ -107,7 +107,7 @@ class BfsResult:
                 key = f"edges_list_hashes__{i}"
                 if key not in f:
                     break
-                layers_hashes.append(f[key][()])
+                layers_hashes.append(torch.as_tensor(f[key][()]))
 
             if f["edges_list_hashes"].shape == tuple():
                 edges_list_hashes = None
